@@ -202,8 +202,8 @@ if __name__ == "__main__":
     ctx.assumptions = [
         "clock advances are non-negative whole seconds and finite TTLs whole seconds (the datastore-backed book stores expiries as unix seconds); total clock advance below ConnectedAddrTTL (292 years) — the only hypothesis of the pstoremem theorems (clock_ok)",
         "the pstoreds theorems (c09_ds_refines_spec, c09_ds_trace_holds, c09_mem_ds_equivalent, c09_ds_bounded_after_gc) hold under ds_ok: whole-second non-negative clock steps staying one second below ConnectedAddrTTL; every TTL <= 0, whole seconds or >= ConnectedAddrTTL; seq >= 0; lookahead interval >= 0 (each clause shown necessary by a witness)",
-        "theorems are about the books whose caps never bind (default caps on small universes / caps disabled); histories with binding caps are generated but judged by the weak monitor only (soundness + the bound cap + 2k per peer): under a binding cap the books drop addresses by design, pstoremem picks victims by Go map order on ties and pstoreds counts once per batch and evicts only among pre-existing entries, so 'exactly' and 'same answers' have no well-defined target there",
-        "container/heap ordering abstracted: PopIfExpired pops every heap entry with expiry <= now; sort.Slice = a correct sort; go-datastore map store and the ARC cache (never evicting: cache disabled or larger than the universe) behave as maps",
+        "the refinement / equivalence theorems are about the books whose caps never bind (default caps on small universes / caps disabled); histories with binding caps are judged by the weak monitor (soundness + the bound cap + 2k per peer + 'the address a write batch names last is returned if the batch fits under the cap', the last proved of both books' capped loops and, for pstoreds, of the whole capped book for the read that follows the write): under a binding cap the books drop addresses by design, pstoremem picks victims by Go map order on ties and pstoreds counts once per batch and evicts only among pre-existing entries, so 'exactly' and 'same answers' have no well-defined target there; pstoreds with a binding per-peer cap is replayed on the capped model (Model_cap.dc_step), pstoremem with binding caps is not replayed",
+        "container/heap ordering abstracted: PopIfExpired pops every heap entry with expiry <= now; sort.Slice = a correct sort that keeps the order of equal expiries (Go's insertion sort for at most 12 entries; the order matters only for the capped pstoreds book's victim on ties); go-datastore map store and the ARC cache (never evicting: cache disabled or larger than the universe) behave as maps",
         "signed records: envelopes are real (ed25519, record.Seal); a record is identified by (peer, seq, address list)",
         "each book method is one critical section (mutexes not modelled); AddrStream not covered",
     ]
@@ -215,7 +215,7 @@ if __name__ == "__main__":
         harness=harness,
         replay_harness=replay_harness, warm=warm,
         nontrivial=nontrivial,
-        rule="fixed corpus (repaired-defect witnesses, open-finding witnesses, exactly-at-expiry, class transitions, record life cycle, "
+        rule="fixed corpus (repaired-defect witnesses, open-finding witnesses, delete-the-nearest-expiry-then-the-entry-behind-expires (deleteInPlace leaves the record unsorted), exactly-at-expiry, class transitions, record life cycle, "
              "/p2p suffixes, reopen) on 5 store configurations, then seeded random histories over 1-3 peers x 2-5 addresses x TTLs "
              "{-1,0,10s,2m,15m,30m,1h,connected,permanent}: AddAddr(s)/SetAddr(s)/record batches of 1-4 with own/foreign /p2p suffixes, one in five naming an address twice (plainly, or once with /p2p/<self>), UpdateAddrs between "
              "classes, ClearAddrs, ConsumePeerRecord with real sealed envelopes (lower/equal/higher seq, empty, wrong signer), clock advances "
